@@ -102,12 +102,28 @@ def check_one(s: str) -> t.Optional[t.Tuple[str, str]]:
 _X: t.Dict[str, t.Any] = {}
 
 
+_AGAIN: t.List[str] = []
+
+
 def _emit(loc: evid.Local, s: str) -> None:
     loc.add("states")
     loc.add("transitions", 3)
     r = check_one(s)
     if r:
-        loc.violation(r[0], r[1], {"text": s})
+        loc.violation(r[0], r[1], {"text": s if len(s) < 4000 else None, "len": len(s)})
+    if len(_AGAIN) < 400 and len(s) < 200:
+        _AGAIN.append(s)
+
+
+def _second_pass(loc: evid.Local) -> None:
+    """The sentences parsed first in this process, parsed again after hundreds of others: what a text
+    denotes must not depend on what was parsed before it."""
+    for s in _AGAIN:
+        loc.add("transitions", 3)
+        r = check_one(s)
+        if r:
+            loc.violation("history-dependent:" + r[0], "[second pass] " + r[1], {"text": s, "second_pass": True})
+    del _AGAIN[:]
 
 
 def _work(job: t.Tuple[t.Any, ...]) -> evid.Local:
@@ -174,6 +190,10 @@ def _work(job: t.Tuple[t.Any, ...]) -> evid.Local:
                 _emit(loc, inner)
                 _emit(loc, " " + inner.replace("(&", "( & ").replace("(!", "(! ") + " ")
         _emit(loc, "(" + ";".join(["cn"] + ["x-%d" % i for i in range(40)]) + "=v)")
+        # encodings of 64 KiB and more
+        _emit(loc, "(cn=" + "v" * 70000 + ")")
+        _emit(loc, "(|" + "".join("(uid=user%05d)" % i for i in range(4500)) + ")")
+        _emit(loc, "(&(cn=" + "\\41" * 22000 + "*)(!(o:dn:=" + "z" * 65536 + ")))")
         _emit(loc, "(1.2." + ".".join(str(i) for i in range(60)) + ";binary>=v)")
     elif fam == "mb":
         # raw multi-byte UTF-8 earlier in the text, then items whose parts are located by offset
@@ -192,6 +212,7 @@ def _work(job: t.Tuple[t.Any, ...]) -> evid.Local:
             for o1, o2 in itertools.product("&|", repeat=2):
                 for sp in decs:
                     _emit(loc, f"({o1}{sp[0]}(!{sp[1]}({o2}{sp[2]}(!({a})){sp[3]}({b}){sp[4]}){sp[5]}){sp[6]}({a}){sp[7]})")
+    _second_pass(loc)
     loc.distinct.add(job[:2])
     return loc
 
